@@ -87,6 +87,16 @@ class Pools:
     # ---- magnitudes ---------------------------------------------------------------------
     def magnitude(self, rng, kind=None, allow_zero=True, positive=False):
         kind = kind or rng.choice(["int", "float", "float", "decimal"])
+        if rng.random() < 0.08:
+            # boundary and round values: the ones a special case is written for
+            v = rng.choice([1, 1, 2, 10, 100, 1000, 12, 60, 0.5, 0.1, 0.25, 1e15, 1e16, 1e-15, 2**53, 1e3, 1e6, 1e-3, 3])
+            if not positive and rng.random() < 0.3:
+                v = -v
+            if kind == "int":
+                return int(v) if abs(v) >= 1 else (1 if v > 0 else -1)
+            if kind == "float":
+                return float(v)
+            return Decimal(repr(v)) if isinstance(v, float) else Decimal(v)
         if rng.random() < 0.04:
             # unusual representations of ordinary values: integers beyond 2**53, integral floats, Decimals in
             # exponent notation or with trailing zeros
@@ -112,14 +122,35 @@ class Pools:
         return Decimal(repr(round(float(v), 6))) if v else Decimal(0)
 
     # ---- unit terms ---------------------------------------------------------------------
+    # the units and prefixes people actually write: a uniformly random choice among ~350 units and 24 prefixes meets
+    # "kilometre per hour" about once in a million cases, and those are the expressions a special case is written for
+    EVERYDAY_UNITS = ["meter", "second", "gram", "kilogram", "foot", "inch", "mile", "yard", "hour", "minute", "day", "liter", "newton", "joule",
+                      "watt", "pascal", "hertz", "volt", "ampere", "ohm", "coulomb", "byte", "bit", "pound", "ounce", "gallon", "acre", "kelvin",
+                      "mole", "candela", "radian", "degree", "calorie", "horsepower", "knot", "bar", "hectare", "tonne", "week", "year"]
+    EVERYDAY_PREFIXES = ["kilo", "milli", "centi", "mega", "micro", "nano", "giga", "deci", "hecto"]
+
+    def everyday(self, names):
+        cache = getattr(self, "_everyday", None)
+        if cache is None:
+            cache = self._everyday = {}
+        key = id(names)
+        if key not in cache:
+            allowed = set(names)
+            cache[key] = [n for n in self.EVERYDAY_UNITS if n in allowed]
+        return cache[key]
+
     def factor(self, rng, names=None, max_exp=3, prefix_prob=0.4, neg_prob=0.4, prefixes=None):
-        name = rng.choice(names or self.moderate)
-        exp = rng.randint(1, max_exp)
+        pool = names or self.moderate
+        common = self.everyday(pool) if rng.random() < 0.2 else None
+        name = rng.choice(common or pool)
+        exp = rng.randint(1, max_exp) if rng.random() < 0.7 else 1
         if rng.random() < neg_prob:
             exp = -exp
         pfx = None
         if rng.random() < prefix_prob:
-            pfx = rng.choice(prefixes or self.si_prefixes)
+            plist = prefixes or self.si_prefixes
+            commonp = [x for x in self.EVERYDAY_PREFIXES if x in plist] if rng.random() < 0.4 else None
+            pfx = rng.choice(commonp or plist)
         return (pfx, name, exp)
 
     def factors_term(self, factors):
